@@ -4,6 +4,7 @@ import flowpaths.abstractwalkmodeldigraph as walkmodel
 import flowpaths.utils as utils
 import flowpaths.nodeexpandeddigraph as nedg
 import copy
+import math
 import numpy as np
 import time
 
@@ -202,11 +203,11 @@ class kLeastAbsErrorsCycles(walkmodel.AbstractWalkModelDiGraph):
         self.subset_constraints_coverage = subset_constraints_coverage
         
         self.flow_attr = flow_attr
-        self.w_max = self.k * self.weight_type(
-            self.G.get_max_flow_value_and_check_non_negative_flow(
-                flow_attr=self.flow_attr, edges_to_ignore=self.edges_to_ignore
-            )
+        max_flow_value = self.G.get_max_flow_value_and_check_non_negative_flow(
+            flow_attr=self.flow_attr, edges_to_ignore=self.edges_to_ignore
         )
+        # (integer weights for fractional data: round the bound up, int() would truncate it, down to 0 for values below 1)
+        self.w_max = self.k * (math.ceil(max_flow_value) if self.weight_type == int else self.weight_type(max_flow_value))
 
         self.pi_vars = {}
         self.path_weights_vars = {}
